@@ -446,6 +446,11 @@ def special_model_st(draw, cplx=None, max_modes=4, beta_lo=0.1, beta_hi=200.0, s
         for a in range(nsites - 1):
             terms.append(P("hop3", labs[a], labs[a + 1], [t, 0.0]))
     beta = draw(beta_st(beta_lo, beta_hi))
+    if kind == "wide":
+        # keep beta * (largest energy) below ~3e4 as in the other families: beyond that the rounding error of the eigenvalues
+        # themselves (eps * E) becomes visible in exp(-beta E), which no tolerance model here accounts for
+        amax = max([abs(a[0]) for t in terms if t["k"] == "preset" for a in t["args"] if isinstance(a, list)] + [1.0])
+        beta = min(beta, max(beta_lo, 3e4 / amax))
     symm = draw(symm_st(sites, symm_modes))
     m = {"cplx": bool(cplx), "sites": sites, "terms": terms, "order_spins": 0, "symm": symm, "beta": beta, "family": kind}
     if draw(st.integers(0, 3)) == 0:
